@@ -102,10 +102,66 @@ class Conc(object):
                     break
             self.ip[i] = a
         if fam == "prefix" and nid["ip"] >= 2:
+            # the re-drawn pair must stay distinct from, and unrelated by containment to, the other addresses
+            # of the trace (ids 3..): two ids with one text would be one original
+            others = [self.ip[k] for k in self.ip if k > 2]
             while True:
                 a = self._ip()
                 last = a.rsplit(".", 1)[1]
-                if len(last) <= 2 and int(last) > 0 and int(last + "0") <= 255:
+                if not (len(last) <= 2 and int(last) > 0 and int(last + "0") <= 255):
+                    continue
+                a2 = a + pick(rng, "012345") if int(last) < 25 else a + "0"
+                if not any(x in b or b in x for b in others for x in (a, a2)):
+                    break
+            self.ip[1] = a
+            self.ip[2] = a2
+        if fam == "collide":
+            labels = ["example", "com"]
+        self.domain = ".".join(labels)
+        self.fqdn = self.short + "." + self.domain if cf["sysdom"] else self.short
+        otherdom = word(rng, HOST1, 3, 3) + ".kvw"
+        dom = self.domain if cf["sysdom"] else otherdom
+        # hosts of the domain
+        self.dom = {}
+        used = set([self.short])
+        eqlen = rng.randint(3, 7)
+        for i in range(1, nid["dom"] + 1):
+            while True:
+                if fam == "eqlen":
+                    # names of equal length; with three or more hosts the last one may be longer
+                    n = eqlen + (rng.randint(1, 3) if i == nid["dom"] >= 3 and rng.random() < 0.5 else 0)
+                    lab = word(rng, HOST1, 2, 2) + word(rng, HOSTN, n - 2, n - 2)
+                else:
+                    lab = word(rng, HOST1, 2, 2) + word(rng, HOSTN, 0, 5)
+                if fam != "eqlen" and rng.random() < 0.2:
+                    lab += pick(rng, ["-", "_", "."]) + word(rng, HOSTN, 1, 3)
+                if not any(lab in u or u in lab for u in used):
+                    break
+            used.add(lab)
+            self.dom[i] = lab + "." + dom
+        if fam == "suffix" and nid["dom"] >= 2:
+            self.dom[2] = word(rng, HOSTN[:15], 1, 2) + self.dom[1]
+        if fam == "collide" and cf["sysdom"]:
+            from insights.cleaner.hostname import Hostname
+            scratch = Hostname(self.fqdn)
+            self.dom[1] = scratch.parse_line("%s.%s" % (word(rng, HOST1, 4, 4), self.domain))
+        # addresses
+        self.ip = {}
+        for i in range(1, nid["ip"] + 1):
+            while True:
+                a = self._ip()
+                if not any(a in b or b in a for b in self.ip.values()):
+                    break
+            self.ip[i] = a
+        if fam == "prefix" and nid["ip"] >= 2:
+            while True:
+                a = self._ip()
+                last = a.rsplit(".", 1)[1]
+                # the re-drawn pair must stay distinct from, and unrelated by containment to, the other
+                # addresses of the trace (ids 3..): two ids with one text would be one original
+                others = [self.ip[j] for j in self.ip if j > 2]
+                if len(last) <= 2 and int(last) > 0 and int(last + "0") <= 255 and \
+                        not any(a in b or b in a for b in others):
                     break
             self.ip[1] = a
             self.ip[2] = a + pick(rng, "012345") if int(last) < 25 else a + "0"
